@@ -190,18 +190,32 @@ func DefaultIntrinsics() map[string]Intrinsic {
 		return nil
 	}
 	m[rtPkg+".Go"] = func(fr *frame, args []value) value {
-		fr.i.spawn(fr, fr.callpos, args[0], nil)
+		fr.i.spawn(fr, fr.callpos, args[0], nil, true)
 		return nil
 	}
 	m[rtPkg+".Yield"] = func(fr *frame, args []value) value {
 		fr.i.ps.sched.schedPoint(fr, "yield")
 		return nil
 	}
-	m[rtPkg+".WaitAll"] = func(fr *frame, args []value) value {
+	// strings.Builder: the unsafe parts only
+	m["(*strings.Builder).copyCheck"] = func(fr *frame, args []value) value { return nil }
+	m["(*strings.Builder).Grow"] = func(fr *frame, args []value) value { return nil }
+	m["(*strings.Builder).String"] = func(fr *frame, args []value) value {
+		b := (*args[0].(*value)).(structure)
+		buf, _ := b[1].([]value)
+		out := make([]byte, len(buf))
+		for k, e := range buf {
+			out[k] = fr.i.concByte(e)
+		}
+		return string(out)
+	}
+	m[rtPkg+".Sync"] =func(fr *frame, args []value) value { return nil }
+	m[rtPkg+".WaitAll"] =func(fr *frame, args []value) value {
 		s := fr.i.ps.sched
+		self := s.current
 		s.block(fr, func() bool {
 			for _, g := range s.gs {
-				if g != s.current && g.status != gDone {
+				if g != self && g.status != gDone {
 					return false
 				}
 			}
